@@ -786,6 +786,105 @@ theorem entries_come_from_request_fields (env : Env) (fuel : Nat) (m : Msg) (pre
     ∀ e ∈ es, ∃ f ∈ requestFields m, ∃ tail, e.path = pre ++ f.name :: tail :=
   requestObject_paths env fuel m pre es h
 
+/-- `ReqPath env m p`: `p` is a field path from message `m` down to a scalar/enum leaf along which every step is
+    a field the default request is built from (a REQUIRED field outside a real oneof, or the first member of a
+    real oneof: `requestFields`) — read off the descriptors alone.  The same message type may occur on any number
+    of such paths (sibling fields of one type, the same type at two depths). -/
+inductive ReqPath (env : Env) : Msg → List (List Char) → Prop where
+  | prim (m : Msg) (f : Field) (t : PyType) : f ∈ requestFields m → f.kind = .prim t → ReqPath env m [f.name]
+  | enum (m : Msg) (f : Field) (vs : List (List Char)) (v : List Char) :
+      f ∈ requestFields m → f.kind = .enum vs → vs.getLast? = some v → ReqPath env m [f.name]
+  | step (m : Msg) (f : Field) (tn : List Char) (sub : Msg) (p : List (List Char)) :
+      f ∈ requestFields m → f.kind = .msg tn → env.get tn = some sub → ReqPath env sub p → ReqPath env m (f.name :: p)
+
+section Aux
+
+/-- a request field's own entries are entries of the whole request (which cannot be `ok` if the field's are not) -/
+theorem fieldsEntries_field_ok (env : Env) (recur) (f : Field) (pre : List (List Char)) :
+    ∀ (fs : List Field) (es : List Entry), f ∈ fs → fieldsEntries env recur fs pre = .ok es →
+      ∃ here, fieldEntries env recur f pre = .ok here ∧ ∀ e ∈ here, e ∈ es := by
+  intro fs
+  induction fs with
+  | nil => intro _ h; cases h
+  | cons g gs ih =>
+    intro es hmem hok
+    simp only [fieldsEntries] at hok
+    cases hg : fieldEntries env recur g pre with
+    | error x => simp [hg] at hok
+    | ok hereg =>
+      simp only [hg] at hok
+      cases hr : fieldsEntries env recur gs pre with
+      | error x => simp [hr] at hok
+      | ok rest =>
+        simp only [hr, Except.ok.injEq] at hok
+        subst hok
+        rcases List.mem_cons.mp hmem with h | h
+        · subst h
+          exact ⟨hereg, hg, fun e he => List.mem_append_left _ he⟩
+        · obtain ⟨here, hh, hin⟩ := ih rest h hr
+          exact ⟨here, hh, fun e he => List.mem_append_right _ (hin e he)⟩
+
+end Aux
+
+/-- `request_has_every_required_path`: whenever default request construction returns (on acyclic types it does:
+    `request_object_terminates`), EVERY required leaf path of the request type — through required message fields
+    and first oneof members, at any depth, however often a message type is used — has an entry in the generated
+    request, under exactly that dotted path.  (A `visited`-list shared by the whole traversal would break this at
+    the second use of a type: `second_use_of_a_type_is_populated` is the smallest such request.) -/
+theorem request_has_every_required_path (env : Env) (m : Msg) (p : List (List Char)) (hp : ReqPath env m p) :
+    ∀ (fuel : Nat) (pre : List (List Char)) (es : List Entry), requestObject env fuel m pre = .ok es →
+      ∃ e ∈ es, e.path = pre ++ p := by
+  induction hp with
+  | prim m f t hf hk =>
+    intro fuel pre es h
+    cases fuel with
+    | zero => simp [requestObject] at h
+    | succ n =>
+      simp only [requestObject] at h
+      obtain ⟨here, hh, hin⟩ := fieldsEntries_field_ok env _ f pre _ es hf h
+      simp only [fieldEntries, hk, Except.ok.injEq] at hh
+      subst hh
+      exact ⟨_, hin _ (List.mem_singleton.mpr rfl), rfl⟩
+  | enum m f vs v hf hk hv =>
+    intro fuel pre es h
+    cases fuel with
+    | zero => simp [requestObject] at h
+    | succ n =>
+      simp only [requestObject] at h
+      obtain ⟨here, hh, hin⟩ := fieldsEntries_field_ok env _ f pre _ es hf h
+      simp only [fieldEntries, hk, hv, Except.ok.injEq] at hh
+      subst hh
+      exact ⟨_, hin _ (List.mem_singleton.mpr rfl), rfl⟩
+  | step m f tn sub p hf hk hsub _ ih =>
+    intro fuel pre es h
+    cases fuel with
+    | zero => simp [requestObject] at h
+    | succ n =>
+      simp only [requestObject] at h
+      obtain ⟨here, hh, hin⟩ := fieldsEntries_field_ok env _ f pre _ es hf h
+      simp only [fieldEntries, hk, hsub] at hh
+      obtain ⟨e, he, hpath⟩ := ih n (pre ++ [f.name]) here hh
+      exact ⟨e, hin e he, by rw [hpath]; simp⟩
+
+/-- `MoveBookRequest{name, Shelf source_shelf, Shelf destination_shelf}` (all REQUIRED, `Shelf.name` REQUIRED) -/
+def shelfEnv : Env := [("Shelf".toList, ⟨[⟨"name".toList, .prim .str, false, true, none, false⟩]⟩)]
+def moveBookMsg : Msg := ⟨[⟨"name".toList, .prim .str, false, true, none, false⟩,
+  ⟨"source_shelf".toList, .msg "Shelf".toList, false, true, none, false⟩,
+  ⟨"destination_shelf".toList, .msg "Shelf".toList, false, true, none, false⟩]⟩
+
+example : ReqPath shelfEnv moveBookMsg ["destination_shelf".toList, "name".toList] :=
+  .step _ ⟨"destination_shelf".toList, .msg "Shelf".toList, false, true, none, false⟩ "Shelf".toList
+    ⟨[⟨"name".toList, .prim .str, false, true, none, false⟩]⟩ _ (by decide) rfl (by decide)
+    (.prim _ ⟨"name".toList, .prim .str, false, true, none, false⟩ .str (by decide) rfl)
+
+/-- the second sibling of the same message type is built like the first -/
+theorem second_use_of_a_type_is_populated :
+    (requestObject shelfEnv 5 moveBookMsg []).toOption = some [
+      ⟨["name".toList], .one (.str "name_value".toList)⟩,
+      ⟨["source_shelf".toList, "name".toList], .one (.str "name_value".toList)⟩,
+      ⟨["destination_shelf".toList, "name".toList], .one (.str "name_value".toList)⟩] := by
+  decide +kernel
+
 /-- a message with a oneof {a:int32, b:string} and a required string -/
 def demoMsg : Msg := ⟨[
   ⟨"name".toList, .prim .str, false, true, none, false⟩,
